@@ -24,14 +24,18 @@ type batch struct {
 	rots   []int // rotations run in this batch
 	lm     int   // listener mode
 	forms  int   // call-form batch (forms.go): 0 no, 1 representative styles, 2 all styles
+	held   int   // held-values batch (held.go): 0 no, 1 representative styles, 2 all styles
 }
 
-func newBatch(sigs []*sigT, li int, rots []int, lm int, forms int) *batch {
-	b := &batch{sigs: sigs, li: li, layout: &layouts[li], rots: rots, lm: lm, forms: forms}
+func newBatch(sigs []*sigT, li int, rots []int, lm int, forms int, held int) *batch {
+	if held != 0 {
+		rots = []int{kDeep}
+	}
+	b := &batch{sigs: sigs, li: li, layout: &layouts[li], rots: rots, lm: lm, forms: forms, held: held}
 	for _, s := range sigs {
 		var plain *unit
 		for _, st := range stylesFor(s) {
-			if forms != 0 && !formStyle(st, forms) {
+			if (forms != 0 && !formStyle(st, forms)) || (held != 0 && !formStyle(st, held)) {
 				continue
 			}
 			u := &unit{idx: len(b.units), sig: s, st: st}
@@ -142,6 +146,7 @@ type replayT struct {
 	Layout string       `json:"layout,omitempty"`
 	Lis    int          `json:"listeners,omitempty"`
 	Forms  int          `json:"forms,omitempty"`
+	Held   int          `json:"held,omitempty"`
 	Multi  *multiReplay `json:"multi,omitempty"`
 }
 
@@ -161,7 +166,7 @@ func (r *runner) viol(w *world, u *unit, dir string, k int, sig, what string) {
 	if len(r.res.Viols) >= 24 {
 		return
 	}
-	rp := replayT{Engine: w.eng, Style: u.st, Dir: dir, K: k, Depth: r.depth, Layout: w.b.layout.Name, Lis: w.b.lm, Forms: w.b.forms}
+	rp := replayT{Engine: w.eng, Style: u.st, Dir: dir, K: k, Depth: r.depth, Layout: w.b.layout.Name, Lis: w.b.lm, Forms: w.b.forms, Held: w.b.held}
 	for _, t := range u.sig.P {
 		rp.P = append(rp.P, tname(t))
 	}
@@ -356,6 +361,10 @@ func (u *unit) deep() bool {
 func (r *runner) runUnit(w *world, u *unit) {
 	if w.b.forms != 0 {
 		r.runForms(w, u)
+		return
+	}
+	if w.b.held != 0 {
+		r.runHeld(w, u)
 		return
 	}
 	for _, k := range w.b.rots {
